@@ -44,7 +44,7 @@ Section RpnameProof.
   Hypothesis OK : rp_consts_ok c = true.
   Lemma rp_facts : rp_key_name c = lit "Name" /\ rp_key_ppid c = lit "PPid" /\ rp_unknown c = lit "(unknown)" /\ rp_root_pid c = 1%N /\ rp_zero_pid c = 0%N /\ (65 <= rp_val_max c)%N.
   Proof.
-    unfold rp_consts_ok in OK. do 7 (apply andb_true_iff in OK as [OK ?]).
+    unfold rp_consts_ok in OK. do 8 (apply andb_true_iff in OK as [OK ?]).
     repeat split; try (now apply list_eqb_eq); try (now apply N.eqb_eq). now apply N.leb_le.
   Qed.
 
